@@ -783,3 +783,22 @@ package kafka
 //@   loop 0 invariant forall i :: 0 <= i && i <= rangeindex ==> haskey(o, commits[i].topic)
 //@   loop 0 invariant forall i :: 0 <= i && i <= rangeindex ==> haskey(o, commits[i].topic) && haskey(o[commits[i].topic], commits[i].partition)
 //@   loop 0 invariant forall i :: 0 <= i && i <= rangeindex ==> haskey(o, commits[i].topic) && haskey(o[commits[i].topic], commits[i].partition) && o[commits[i].topic][commits[i].partition] >= commits[i].offset
+
+// CommitOffsets: the request handed to the coordinator carries only what the caller supplied - every (topic, partition,
+// offset) entry of the request is an entry of the offsets map (so the committed offset can never exceed what the commit
+// loop stashed) - and an entry written for one topic is not disturbed while the entries of the next topic are built.
+//@ func (*Conn).offsetCommit
+//@   trusted sends the OffsetCommit request on the coordinator connection (its framing belongs to C04/C11)
+//@ func (*Generation).log
+//@   trusted logging
+//@ func (*Generation).CommitOffsets
+//@   option noframe
+//@   modifies heap
+//@   callsite (*Conn).offsetCommit requires forall i :: 0 <= i && i < len($1.Topics) ==> haskey(offsets, $1.Topics[i].Topic) && (forall j :: 0 <= j && j < len($1.Topics[i].Partitions) ==> (exists p int :: haskey(offsets[$1.Topics[i].Topic], p) && int32(p) == $1.Topics[i].Partitions[j].Partition && offsets[$1.Topics[i].Topic][p] == $1.Topics[i].Partitions[j].Offset))
+//@   loop 0 invariant forall i :: 0 <= i && i < len(topics) ==> haskey(offsets, topics[i].Topic) && (forall j :: 0 <= j && j < len(topics[i].Partitions) ==> (exists p int :: haskey(offsets[topics[i].Topic], p) && int32(p) == topics[i].Partitions[j].Partition && offsets[topics[i].Topic][p] == topics[i].Partitions[j].Offset))
+//@   loop 1 invariant haskey(offsets, topic)
+//@   loop 1 invariant partitions == offsets[topic]
+//@   loop 1 invariant same(t.Topic, topic)
+//@   loop 1 invariant forall i :: 0 <= i && i < len(topics) ==> disjoint(topics[i].Partitions, t.Partitions)
+//@   loop 1 invariant forall j :: 0 <= j && j < len(t.Partitions) ==> (exists p int :: haskey(partitions, p) && int32(p) == t.Partitions[j].Partition && partitions[p] == t.Partitions[j].Offset)
+//@   loop 1 invariant forall i :: 0 <= i && i < len(topics) ==> haskey(offsets, topics[i].Topic) && (forall j :: 0 <= j && j < len(topics[i].Partitions) ==> (exists p int :: haskey(offsets[topics[i].Topic], p) && int32(p) == topics[i].Partitions[j].Partition && offsets[topics[i].Topic][p] == topics[i].Partitions[j].Offset))
